@@ -15,7 +15,7 @@ RULE = ('server lifetimes in which "victim" callers abandon requests -- call() d
         '"witness" callers issue long-deadline requests; targeted delay injection between the gather thread\'s cancelled() test and its '
         'set_result/set_exception, around the caller\'s cancel(), and in fifo_stream\'s cancel loop. Oracle: every witness request and a final '
         'request are answered correctly, gather thread alive, no helper thread died, __exit__ returns normally. non-trivial = lifetime with >=1 '
-        'abandonment whose result reached the gather thread after the cancellation and >=1 before; distinct = distinct (scenario, mode, workers, seed)')
+        'abandonment whose result reached the gather thread after the cancellation and >=1 before; distinct = distinct (scenario, mode, workers, seed); capacities 1-64; thread and process servlets')
 ASSUMPTIONS = ['witness requests use a 30 s deadline; a TimeoutError on one of them is a lost response',
                'abandonment timing relative to the gather thread is classified from the timestamps the server itself records (t_cancelled, t2); evidence only']
 CASE_TIMEOUT = 200
